@@ -18,6 +18,7 @@ import NumqiProofs.QecEnumOrder
 import NumqiProofs.QecBridge
 import NumqiProofs.QecLoss
 import NumqiProofs.QecTab
+import NumqiProofs.QecShift
 import NumqiModel.Generated.QecCircuits
 import Mathlib.Data.Complex.Basic
 
@@ -207,6 +208,22 @@ theorem holds_of_checks (c : Code) (h1 : klCheck c = true) (h2 : listedCheck c =
     fun l hl a ha => listed_stabilizers_fix hI c h2 l hl a ha, ?_⟩
   obtain ⟨e1, e2⟩ := stabilizer_circuit_implements (R := ℂ) hI c h3
   exact ⟨e1, hne, e2⟩
+
+/-! ### shifted registers: `Circuit.shift_qubit_index_` and `VarQEC` -/
+
+omit [StarRing R] in
+/-- **`shift_qubit_index_(k)` commutes with running the circuit**: the gate list with every index moved up by `k`, run on a
+vector of the larger register, is the original list run on each slice with the first `k` qubits fixed (position `lo < 2^k`). -/
+theorem shift_runs_on_upper_qubits (I : R) (k lo : Nat) (hlo : lo < 2 ^ k) (gs : List Gate) (w : Nat → R) :
+    slice k lo (run I (gs.map (Gate.shift k)) w) = run I gs (slice k lo w) :=
+  run_shift I k lo hlo gs w
+
+omit [StarRing R] in
+/-- **`VarQEC(encode, K, …).get_code()` returns the code words of `generate_code_np(encode, K)`**: row `a < K` of the model
+of `get_code` (encoder shifted by `⌈log2 K⌉`, applied to `Σ_a |a⟩⊗|a⟩`, sliced) is `codeword a` — any `K`. -/
+theorem varqec_get_code_is_generate_code_np (I : R) (c : Code) (K a : Nat) (ha : a < K) :
+    varqecCode I c K a = codeword I c a :=
+  varqecCode_eq_codeword I c K a ha
 
 /-! ### what the driver executes is the model the theorems are about -/
 
